@@ -25,6 +25,7 @@ type family struct {
 	Sugar2 bool  // emit the two-sugar variants (gen.SugarPairs) instead
 	Limit  int64 // stop after this many raw indices (0 = whole space); reported as a cap
 	Names  int   // gen.Grammar.RenameRules scheme
+	Pad    int   // gen.Grammar.PadToks: unused tokens declared before the grammar's own
 	// Indirect: emit gen.Grammar.IndirectEmpty of each member (members without @empty are skipped)
 	Indirect bool
 	// Wide: instead of Space, N grammars built from K components each (gen.Wide)
@@ -122,6 +123,7 @@ func (fam *family) each(c *mc.Ctx, f func(idx int64, g *gen.Grammar)) {
 			}
 		}
 		g.RenameRules(fam.Names)
+		g.PadToks = fam.Pad
 		if fam.Sugar2 {
 			for k, v := range gen.SugarPairs(g) {
 				f(i*1000+int64(k)+1, v)
@@ -163,8 +165,8 @@ func tokName(g *gen.Grammar, t int) string {
 		return "EOF"
 	case t == 1:
 		return "ERROR"
-	case t-2 < len(g.Toks):
-		return g.Toks[t-2]
+	case t-2-g.PadToks >= 0 && t-2-g.PadToks < len(g.Toks):
+		return g.Toks[t-2-g.PadToks]
 	}
 	return fmt.Sprint(t)
 }
@@ -234,6 +236,7 @@ func c01Families(quick bool) c01Params {
 				{Name: "sugar2", Space: gen.NewSpace(2, 2, 2, 2, false), Sugar2: true, Limit: 2500, L: 5, Lpos: 7, Npos: 60},
 				{Name: "plain-names", Space: gen.NewSpace(2, 2, 2, 2, false), Names: 1},
 				{Name: "plain3-names", Space: gen.NewSpace(3, 2, 2, 2, false), Limit: 150000, Names: 1},
+				{Name: "plain-names-builtin", Space: gen.NewSpace(2, 2, 2, 2, false), Names: 3},
 				{Name: "plain-indirect", Space: gen.NewSpace(2, 2, 2, 2, false), Indirect: true},
 				{Name: "plain3-indirect", Space: gen.NewSpace(3, 2, 2, 2, false), Limit: 400000, Indirect: true},
 				{Name: "plain-l3-indirect", Space: gen.NewSpace(2, 2, 2, 3, false), Limit: 300000, Indirect: true},
@@ -254,6 +257,8 @@ func c01Families(quick bool) c01Params {
 			{Name: "sugar2-t3", Space: gen.NewSpace(2, 3, 2, 2, false), Sugar2: true, Limit: 20000, L: 5, Lpos: 8, Npos: 100},
 			{Name: "plain-names", Space: gen.NewSpace(2, 2, 2, 2, false), Names: 1},
 			{Name: "plain-t3-names", Space: gen.NewSpace(2, 3, 2, 2, false), Names: 1},
+			{Name: "plain-names-builtin", Space: gen.NewSpace(2, 2, 2, 2, false), Names: 3},
+			{Name: "plain3-names-builtin", Space: gen.NewSpace(3, 2, 2, 2, false), Limit: 500000, Names: 3},
 			{Name: "plain-indirect", Space: gen.NewSpace(2, 2, 2, 2, false), Indirect: true},
 			{Name: "plain3-indirect", Space: gen.NewSpace(3, 2, 2, 2, false), Limit: 3000000, Indirect: true},
 			{Name: "plain-l3-indirect", Space: gen.NewSpace(2, 2, 2, 3, false), Limit: 2000000, Indirect: true},
